@@ -388,3 +388,13 @@ def short(p):
     for pre in ("std::", "core::", "alloc::"):
         pass
     return p
+
+
+def show_key(t, limit=70):
+    """like show() but without local numbers, for stable keys."""
+    import re
+    s = show(t)
+    s = re.sub(r"↺_\d+", "↺", s)
+    s = re.sub(r"\('undef', \d+\)", "undef", s)
+    s = s.replace(" ", "")
+    return s[:limit]
